@@ -53,6 +53,50 @@ pub fn caps(r: &mut Rng) -> Vec<(u16, Vec<u8>)> {
     out
 }
 
+/// the full Windows-like capability list with the *free* fields of each set (flags, sizes, identifiers: every
+/// value is conformant) drawn from edge values; the fields MS-RDPBCGR fixes keep their value
+pub fn caps_varied(r: &mut Rng) -> Vec<(u16, Vec<u8>)> {
+    let mut all = proto::general_caps();
+    for (t, body) in all.iter_mut() {
+        if body.len() < 2 || r.chance(1, 3) {
+            continue;
+        }
+        let free: Vec<usize> = match *t {
+            0x0001 => vec![0, 2, 10],
+            0x0002 => vec![0, 8, 10, 14],
+            _ => (0..body.len() / 2).map(|i| i * 2).collect(),
+        };
+        for _ in 0..r.range(1, 3) {
+            let off = *r.pick(&free);
+            if off + 2 <= body.len() {
+                let v: u16 = match r.below(6) {
+                    0 => 0,
+                    1 => 0xffff,
+                    2 => *r.pick(&[0x0001u16, 0x0004, 0x0010, 0x0014, 0x0020, 0x0034, 0x0035, 0x0375, 0xfffe]),
+                    3 => 1 << r.below(16),
+                    _ => r.u16(),
+                };
+                body[off..off + 2].copy_from_slice(&v.to_le_bytes());
+            }
+        }
+        // the input capability set's flag word: every combination is a legitimate server
+        if *t == 0x000D && r.chance(1, 2) {
+            let v = *r.pick(&[0u16, 0x0004, 0x0010, 0x0014, 0x0020, 0x0034, 0x0001, 0x0035, 0xfffe, 0xffff]);
+            body[0..2].copy_from_slice(&v.to_le_bytes());
+        }
+    }
+    // sometimes a subset, in another order
+    if r.chance(1, 4) {
+        let k = r.below(all.len() as u64 + 1) as usize;
+        for i in (1..all.len()).rev() {
+            let j = r.below(i as u64 + 1) as usize;
+            all.swap(i, j);
+        }
+        all.truncate(k);
+    }
+    all
+}
+
 pub fn profile(r: &mut Rng, selected: u32) -> Profile {
     let mut p = Profile::default();
     p.selected_protocol = selected;
